@@ -106,6 +106,66 @@ _OPS = {  # DWARF v4 figure 24
 }  # fmt: skip
 
 
+def _uleb_enc(v):
+    if v < 0:
+        raise ValueError("ULEB128 of a negative number")
+    out = []
+    while True:
+        c = v & 0x7F
+        v >>= 7
+        out.append(c | (0x80 if v else 0))
+        if not v:
+            return out
+
+
+def _sleb_enc(v):
+    out = []
+    while True:
+        c = v & 0x7F
+        v >>= 7
+        done = (v == 0 and not c & 0x40) or (v == -1 and c & 0x40)
+        out.append(c | (0 if done else 0x80))
+        if done:
+            return out
+
+
+# operand formats of the table above, for the encoder: (width or "uleb"/"sleb"/"addr", signed)
+_OPERANDS = {
+    "addr": [("addr", False)], "const1u": [(1, False)], "const1s": [(1, True)], "const2u": [(2, False)], "const2s": [(2, True)],
+    "const4u": [(4, False)], "const4s": [(4, True)], "const8u": [(8, False)], "const8s": [(8, True)], "constu": [("uleb", False)],
+    "consts": [("sleb", True)], "pick": [(1, False)], "plus_uconst": [("uleb", False)], "bra": [(2, True)], "skip": [(2, True)],
+    "regx": [("uleb", False)], "fbreg": [("sleb", True)], "bregx": [("uleb", False), ("sleb", True)], "piece": [("uleb", False)],
+    "deref_size": [(1, False)], "xderef_size": [(1, False)],
+}  # fmt: skip
+_OPCODE = {v[0]: k for k, v in _OPS.items()}
+
+
+def encode_expr(ops, order, ptr):
+    """Independent encoder for the operation lists decode_expr produces
+    (["breg", n, off], ["lit", n], ["reg", n], [name, operands...])."""
+    out = []
+    for op in ops:
+        name = op[0]
+        if name == "lit":
+            out.append(0x30 + op[1])
+        elif name == "reg":
+            out.append(0x50 + op[1])
+        elif name == "breg":
+            out.append(0x70 + op[1])
+            out += _sleb_enc(op[2])
+        else:
+            out.append(_OPCODE[name])
+            for (w, signed), v in zip(_OPERANDS.get(name, []), op[1:]):
+                if w == "uleb":
+                    out += _uleb_enc(v)
+                elif w == "sleb":
+                    out += _sleb_enc(v)
+                else:
+                    n = ptr if w == "addr" else w
+                    out += list(int(v).to_bytes(n, order, signed=signed))
+    return out
+
+
 def decode_expr(b, order, ptr, spans=None):
     """``spans`` (optional list) receives the (start, end) byte span of every operation."""
     ops, i = [], 0
